@@ -143,6 +143,39 @@ def _run(ctx, rep):
                 rep.ob('refusal', subj + ':bounds', ok, '%s does not refuse a write that would end past the table (offset + len <= len(data))' % name, sp=b['sp'],
                        detail={'guards': [show(g['cond']) for g in I.guards], 'required': show(want)})
     rep.floor('Sdt public operations (typed variants expanded)', n_ops, 14)
+    # ---- the table as a sink: every entry point of `impl AmlSink for Sdt` the crate overrides is an operation too -
+    # it appends exactly the bytes delivered, stores the new size, and leaves an image that sums to zero
+    import sdtsink
+    from rules.C01 import z
+    for label, meth, mk in sdtsink.cases(f):
+        I, sv, old, want = sdtsink.run_case(f, meth, mk)
+        rep.analysed.update(I.calls_seen)
+        subj = 'sdt::Sdt as AmlSink::' + label
+        if I.tops: rep.undecided('model', subj, I.tops, None); continue
+        d = sv.fields['data']
+        sym.CTX = I.st.ranges
+        try:
+            facts = [c for c, _ in I.st.facts]
+            nf = folded(d, facts)
+            n_new = seqlen(list(want))
+            if nf is None: okm = False
+            else:
+                base, writes, _ck = nf
+                okm = segs_equal(base, [('raw', ('a', 'self.data'), old)] + list(want), facts)[0]
+                if n_new != ZERO:
+                    w = {(show(lo), show(hi)): tuple(v) for lo, hi, v in writes}
+                    okm = okm and len(writes) == 1 and same(w.get((show(C(4)), show(C(8)))), [('int', add(old, n_new), 4)])
+                else:
+                    okm = okm and not writes
+            rep.ob('model', subj, okm, 'after %s the table is %s with writes %s; model: old ++ the bytes delivered, bytes 4..8 := new length' %
+                   (label, show_segs(nf[0]) if nf else None, [(show(a), show(b_)) for a, b_, _ in nf[1]] if nf else None), detail={'image': show_segs(nf[0]) if nf else None})
+            # checksum: the resulting image sums to zero, given that the image before did (induction hypothesis)
+            tot = z(stored_sum(('stored', tuple(d.segs), tuple(d.stores), 1, 'u8')))
+            tot = z(rebuild(tot, lambda x: ZERO if x == ('S', ('raw', ('a', 'self.data'))) else None))
+            okc = equal(tot, ZERO, facts)[0] or (not d.stores and d.segs == I.sym_value('sdt::Sdt', 'self').fields['data'].segs)
+            rep.ob('checksum', subj, okc, 'after %s the image sums to %s (mod 256) even when it summed to 0 before' % (label, show(tot)), detail={'sum': show(tot)})
+        finally:
+            sym.CTX = {}
     # readers
     for name in ('len', 'as_slice', 'is_empty'):
         if name in fs:
